@@ -32,6 +32,7 @@ PROOF_FAIL = (
 RESOURCE = ("Resource limit (rlimit) exceeded", "resource limit", "timed out", "canceled")
 
 ERR_RE = re.compile(r"^(error|warning|note)(\[[A-Z0-9]+\])?: (.*)$")
+GUTTER_RE = re.compile(r"^\s*(\d+)\s*\|")
 LOC_RE = re.compile(r"^\s*--> (.+?):(\d+):(\d+)\s*$")
 
 
@@ -42,6 +43,7 @@ class Diag:
         self.line = None
         self.col = None
         self.text = []
+        self.lines = []       # every line number shown in the snippet gutter (primary and secondary spans)
 
     @property
     def kind(self):
@@ -73,6 +75,9 @@ def parse_stderr(err):
         if cur is None:
             continue
         cur.text.append(line)
+        g = GUTTER_RE.match(line)
+        if g:
+            cur.lines.append(int(g.group(1)))
         m = LOC_RE.match(line)
         if m and cur.line is None:
             cur.line = int(m.group(2))
